@@ -735,7 +735,7 @@ pub fn hosts_case(t: &mut Tape) -> NetCase {
 pub fn fuse_case(t: &mut Tape) -> NetCase {
     let w = t.choose(&["ads", "banner", "track", "pixel", "advert"]);
     let others = ["foo", "bar", "img", "x1", "load", "zz", "advice", "q"];
-    let optsets = ["", "", "script", "image,script", "~script", "third-party", "important", "match-case", "xhr,1p"];
+    let optsets = ["", "", "script", "image,script", "~script", "third-party", "important", "match-case", "xhr,1p", "subdocument", "subdocument,document", "script,document", "document"];
     let n = if t.chance(1, 10) { 20 + t.pick(80) } else { 2 + t.pick(24) };
     let mut rules = vec![];
     for _ in 0..n {
